@@ -283,4 +283,177 @@ theorem dblOf_den_pos (b : Nat) : 0 < (dblOf b).den := by
 
 theorem termVal_den_pos (v : Int) : 0 < (termVal v).den := dblOf_den_pos _
 
+/-! ### the width of `'%.pe'`, and the DMIG value field `_dmig_field` -/
+
+/-- zero, or a decimal exponent of at most three digits: every finite double (`termVal_inRange`) -/
+def InRange (x : Dbl) : Prop := x.num = 0 ∨ (x.den ≤ 10 ^ 999 * x.num ∧ x.num < 10 ^ 999 * x.den)
+
+theorem eExp_abs_le (p : Nat) (x : Dbl) (hd : 0 < x.den) (hr : InRange x) : (eExp p x).natAbs ≤ 999 := by
+  unfold eExp
+  rcases hr with h0 | ⟨hlo, hhi⟩
+  · have : eParts p x = (0, 0) := by simp [eParts, h0]
+    rw [this]; decide
+  · have hn : 0 < x.num := by
+      rcases Nat.eq_zero_or_pos x.num with h | h
+      · rw [h] at hlo; omega
+      · exact h
+    obtain ⟨h1, h2, _⟩ := eParts_exp_bounds p 999 x hn hd hlo hhi
+    omega
+
+theorem expDigits_len (e : Int) (h : e.natAbs ≤ 999) : (expDigits e).length = 2 ∨ (expDigits e).length = 3 := by
+  have h3 := natDigits_len_le3 e.natAbs h
+  simp only [List.mem_cons, List.not_mem_nil, or_false] at h3
+  unfold expDigits
+  simp only
+  split
+  · rename_i hl
+    left
+    simp only [List.length_cons]
+    have := natDigits_length_pos e.natAbs
+    omega
+  · rename_i hl
+    rcases h3 with h | h | h
+    · omega
+    · exact Or.inl h
+    · exact Or.inr h
+
+theorem eDig_lt (p : Nat) (x : Dbl) (hd : 0 < x.den) : eDig p x < 10 ^ (p + 1) := by
+  unfold eDig
+  rcases Nat.eq_zero_or_pos x.num with h0 | hn
+  · have : eParts p x = (0, 0) := by simp [eParts, h0]
+    rw [this]; exact Nat.pos_of_ne_zero (by simp)
+  · exact (eParts_spec p x hn hd).2.1
+
+/-- `'%.pe' % x` is `[-]d.` + `p` digits + `e±` + two or three exponent digits -/
+theorem fmtE_length (p : Nat) (hp : p ≠ 0) (x : Dbl) (hd : 0 < x.den) (hr : InRange x) :
+    (fmtE p x).length = (if x.neg then 1 else 0) + p + 4 + (expDigits (eExp p x)).length ∧
+      ((expDigits (eExp p x)).length = 2 ∨ (expDigits (eExp p x)).length = 3) := by
+  refine ⟨?_, expDigits_len _ (eExp_abs_le p x hd hr)⟩
+  rw [fmtE_shape p hp x]
+  have h1 : (natDigits ((eParts p x).1 / 10 ^ p)).length = 1 := by
+    have hlt : (eParts p x).1 / 10 ^ p < 10 := by
+      rw [Nat.div_lt_iff_lt_mul (by positivity)]
+      have := eDig_lt p x hd
+      unfold eDig at this
+      rw [pow_succ] at this
+      omega
+    rw [natDigits_lt_ten _ hlt]; rfl
+  simp only [eMant, List.length_append, List.length_cons, h1, fracDigits_length, eExp]
+  cases x.neg <;> simp <;> omega
+
+theorem dmigFld_length (ec : Char) (x : Dbl) (hd : 0 < x.den) (hr : InRange x) : (dmigFld ec x).length = 16 := by
+  unfold dmigFld
+  split
+  · rename_i h
+    unfold pyE; exact padL_length (by rw [List.length_map]; exact h)
+  · obtain ⟨h8, hed⟩ := fmtE_length 8 (by decide) x hd hr
+    unfold pyE
+    apply padL_length
+    rw [List.length_map, h8]
+    cases x.neg <;> simp <;> omega
+
+/-- **the DMIG value field is clean for every finite double** (exactly 16 columns, no `$`, no comma, solid end) -/
+theorem dmigFld_clean (ec : Char) (hec : ec = 'e' ∨ ec = 'E' ∨ ec = 'D') (x : Dbl) (hd : 0 < x.den) (hr : InRange x) :
+    CleanField 16 (dmigFld ec x) := by
+  unfold dmigFld
+  split
+  · rename_i h; exact pyE_clean 16 9 (by decide) ec hec x h
+  · obtain ⟨h8, hed⟩ := fmtE_length 8 (by decide) x hd hr
+    apply pyE_clean 16 8 (by decide) ec hec x
+    rw [h8]
+    cases x.neg <;> simp <;> omega
+
+/-- what `nas_sscanf` returns for the DMIG value field: ten significant digits, nine in the fallback case -/
+def dmigRead (x : Dbl) : Val := if (fmtE 9 x).length ≤ 16 then readE 9 x else readE 8 x
+/-- … and how near that is: `½·10^(E−9)`, `½·10^(E−8)` in the fallback case -/
+def dmigBound (x : Dbl) : ℚ := if (fmtE 9 x).length ≤ 16 then eBound 9 x else eBound 8 x
+
+theorem nasScan_dmigFld (ec : Char) (hec : ec = 'e' ∨ ec = 'E' ∨ ec = 'D') (x : Dbl) : nasScan (dmigFld ec x) = dmigRead x := by
+  unfold dmigFld dmigRead
+  split
+  · exact nasScan_pyE 16 9 (by decide) ec hec x
+  · exact nasScan_pyE 16 8 (by decide) ec hec x
+
+theorem dmigRead_near (x : Dbl) (hd : 0 < x.den) : Near (dmigRead x) (dblRat x) (dmigBound x) := by
+  unfold dmigRead dmigBound
+  split
+  · exact readE_near 9 x hd
+  · exact readE_near 8 x hd
+
+/-- the fallback is taken exactly for a negative value with a three-digit exponent -/
+theorem dmig_fallback_iff (x : Dbl) (hd : 0 < x.den) (hr : InRange x) :
+    ¬ (fmtE 9 x).length ≤ 16 ↔ x.neg = true ∧ (expDigits (eExp 9 x)).length = 3 := by
+  obtain ⟨h9, hed⟩ := fmtE_length 9 (by decide) x hd hr
+  rw [h9]
+  cases x.neg <;> simp <;> omega
+
+set_option exponentiation.threshold 4000 in
+theorem pow_facts : 2 ^ 1074 ≤ 10 ^ 999 ∧ 2 ^ 1024 < 10 ^ 999 := by constructor <;> decide +kernel
+
+set_option exponentiation.threshold 4000 in
+set_option maxRecDepth 4000 in
+/-- every bit pattern decodes to a value in range -/
+theorem ofBits_inRange (b : Nat) (x : Dbl) (h : ofBits b = some x) : InRange x := by
+  obtain ⟨p1, p2⟩ := pow_facts
+  unfold ofBits at h
+  simp only at h
+  have hf : b % 2 ^ 52 < 2 ^ 52 := Nat.mod_lt _ (by positivity)
+  have he : b / 2 ^ 52 % 2048 < 2048 := Nat.mod_lt _ (by norm_num)
+  generalize b % 2 ^ 52 = f at h hf
+  generalize b / 2 ^ 52 % 2048 = e at h he
+  split at h
+  · exact absurd h (by simp)
+  · rename_i h2047
+    have hne : e ≠ 2047 := by simpa using h2047
+    split at h
+    · injection h with h; subst h
+      rcases Nat.eq_zero_or_pos f with h0 | hpos
+      · exact Or.inl h0
+      · right
+        simp only
+        constructor
+        · calc 2 ^ 1074 ≤ 10 ^ 999 := p1
+            _ ≤ 10 ^ 999 * f := Nat.le_mul_of_pos_right _ hpos
+        · calc f < 2 ^ 52 := hf
+            _ ≤ 10 ^ 999 * 2 ^ 1074 := by
+              calc 2 ^ 52 ≤ 2 ^ 1074 := Nat.pow_le_pow_right (by norm_num) (by norm_num)
+                _ ≤ 10 ^ 999 * 2 ^ 1074 := Nat.le_mul_of_pos_left _ (by positivity)
+    · split at h
+      · rename_i hge
+        injection h with h; subst h
+        right
+        simp only
+        have hge' : 1075 ≤ e := by simpa using hge
+        have hpw : 2 ^ (e - 1075) ≤ 2 ^ 971 := Nat.pow_le_pow_right (by norm_num) (by omega)
+        constructor
+        · have : 0 < (f + 2 ^ 52) * 2 ^ (e - 1075) := by positivity
+          calc 1 ≤ (f + 2 ^ 52) * 2 ^ (e - 1075) := this
+            _ ≤ 10 ^ 999 * ((f + 2 ^ 52) * 2 ^ (e - 1075)) := Nat.le_mul_of_pos_left _ (by positivity)
+        · calc (f + 2 ^ 52) * 2 ^ (e - 1075) ≤ 2 ^ 53 * 2 ^ 971 := Nat.mul_le_mul (by omega) hpw
+            _ = 2 ^ 1024 := by rw [← pow_add]
+            _ < 10 ^ 999 * 1 := by simpa using p2
+      · rename_i hlt
+        injection h with h; subst h
+        right
+        simp only
+        have hlt' : e < 1075 := by simpa using hlt
+        have hpw : 2 ^ (1075 - e) ≤ 2 ^ 1074 := Nat.pow_le_pow_right (by norm_num) (by
+          rename_i h0; have : e ≠ 0 := by simpa using h0
+          omega)
+        constructor
+        · calc 2 ^ (1075 - e) ≤ 2 ^ 1074 := hpw
+            _ ≤ 10 ^ 999 := p1
+            _ ≤ 10 ^ 999 * (f + 2 ^ 52) := Nat.le_mul_of_pos_right _ (by positivity)
+        · calc f + 2 ^ 52 < 2 ^ 1024 := by
+                have : (2 : Nat) ^ 52 + 2 ^ 52 ≤ 2 ^ 1024 := by norm_num
+                omega
+            _ < 10 ^ 999 := p2
+            _ ≤ 10 ^ 999 * 2 ^ (1075 - e) := Nat.le_mul_of_pos_right _ (by positivity)
+
+theorem termVal_inRange (v : Int) : InRange (termVal v) := by
+  unfold termVal dblOf
+  cases h : ofBits v.toNat with
+  | none => exact Or.inl rfl
+  | some x => exact ofBits_inRange _ x h
+
 end PyYetiVerif.Bulk
